@@ -1090,11 +1090,14 @@ func NewAlonzoBlockFromCbor(
 		return nil, fmt.Errorf("decode Alonzo block error: %w", err)
 	}
 
+	// A block without a header cannot be used, whether or not the body
+	// hash is validated
+	if alonzoBlock.BlockHeader == nil {
+		return nil, errors.New("alonzo block header is nil")
+	}
+
 	// Validate body hash during parsing if not skipped
 	if !cfg.SkipBodyHashValidation {
-		if alonzoBlock.BlockHeader == nil {
-			return nil, errors.New("alonzo block header is nil")
-		}
 		if err := common.ValidateBlockBodyHash(
 			data,
 			alonzoBlock.BlockHeader.BlockBodyHash(),
